@@ -248,13 +248,16 @@ def spec_gc_tick(ck, batch=3, old=2):
         total = batch + m
         ex.prove(s, 'C16/gc/history-keeps-as-many-entries-as-the-bound-allows', z3.Or(BV(n, 64) == H, n == total))
         expected = list(reversed(ids)) + oldids[:m]
-        for i, ref in enumerate(hist.items):
+        for i, ref in enumerate(hist.items[:len(expected)]):
             p = ex.deref(s, ref)
             pid = p.fields.get(pf.index('id')) if isinstance(p, Agg) else None
             ex.prove(s, 'C16/gc/history-is-newest-first', pid.t == expected[i] if isinstance(pid, Int) else False)
         rem = [e[1] for e in s.trace if e[0] == 'alive.remove']
         ex.prove(s, 'C16/gc/each-ended-connection-leaves-the-live-list-exactly-once', len(rem) == batch and all(r is not None for r in rem))
         if len(rem) == batch and all(r is not None for r in rem):
-            ex.prove(s, 'C16/gc/live-list-removals-are-the-ended-ids', z3.And([rem[i] == ids[i] for i in range(batch)]))
+            # every ended connection is removed once, in whatever order the batch is walked
+            ex.prove(s, 'C16/gc/live-list-removals-are-the-ended-ids',
+                     z3.And([z3.Or([rem[j] == ids[i] for j in range(batch)]) for i in range(batch)] +
+                            [z3.Or([rem[j] == ids[i] for i in range(batch)]) for j in range(batch)]))
     ck.absorb(ex, 'gc_thread (one tick)', None)
     ck.bounds['gc-tick'] = 'one tick of the gc task: %d ended connections, existing history of 0..%d entries within the bound, history_size 0..%d symbolic, no access log' % (batch, old, batch + old + 1)
